@@ -811,7 +811,11 @@ func (w *WalletManager) GetAllAddressesWithPubkey() ([]*txmgr.AddressDetail, err
 		}
 	}
 
-	for _, ma := range w.ksmgr.CurrentKeystore().ManagedAddresses() {
+	ks := w.ksmgr.CurrentKeystore()
+	if ks == nil {
+		return nil, ErrNoWalletInUse
+	}
+	for _, ma := range ks.ManagedAddresses() {
 		if addr, ok := m0[ma.String()]; ok {
 			addr.PubKey = ma.PubKey()
 			continue
